@@ -22,6 +22,56 @@ def _instances(tier):
     return inst
 
 
+def _delivered(framing, ka, count, variant):
+    """Transport half: what ProtocolCommand.execute hands out as the result when the answer arrives in two pieces (the
+    only place where the delivered bytes are not literally the bytes the validator just saw).  Reuses the scripted
+    peer of C07 with the C01 oracle: a successful result is a well-formed answer to that very request."""
+    import z3
+    from symx.core import to_z3
+    from symx.sbytes import SBytes
+    from .c07 import Fragments
+    from .validators import crc16_reference
+
+    class Delivered(Fragments):
+        name = "delivered-is-wellformed"
+
+        def verdict(self, obs, check, fail):
+            if obs.abort is not None or obs.outcome != "response":
+                return
+            raw = obs.raw
+            n = 2 * self.count
+            if raw is None:
+                fail("request succeeded without data")
+            concrete = isinstance(raw, (bytes, bytearray))
+            items = list(bytes(raw)) if concrete else list(SBytes.of(raw).items)
+            head = {"rtu": 7, "tcp": 9, "aa55": 9}[self.framing]
+            if self.framing == "aa55":
+                n = obs.pieces["good"][6] if "good" in obs.pieces else n
+            if len(items) < head + n or (self.framing != "tcp" and len(items) != head + n):
+                fail("a result of the wrong length was delivered", f"{len(items)} bytes")
+            z = [b if isinstance(b, int) else to_z3(b) for b in items]
+            conds = []
+            if self.framing == "rtu":
+                conds += [z[0] == 0xAA, z[1] == 0x55, z[3] == 3, z[4] == n]
+            elif self.framing == "tcp":
+                conds += [z[7] == 3, z[8] == n, z[4] * 256 + z[5] + 6 <= len(items)]
+            else:
+                conds += [z[0] == 0xAA, z[1] == 0x55, z[6] == n, z3.Sum([b if not isinstance(b, int) else z3.IntVal(b) for b in z[:-2]])
+                          == z[-2] * 256 + z[-1]]
+            for c in conds:
+                check(c if isinstance(c, bool) else c, "a result that is not a well-formed answer to the request was delivered")
+            if self.framing == "rtu" and concrete:
+                b = bytes(raw)
+                if crc16_reference(b[2:-2]) != b[-2] + 256 * b[-1]:
+                    fail("a result with a wrong CRC-16 was delivered")
+            if self.variant == "exact":
+                from .c07 import _bytes_eq
+                eq = _bytes_eq(raw, obs.pieces["good"])
+                if eq is not True:
+                    check(eq, "the delivered result is not the frame that was validated")
+    return Delivered(framing, ka, count, variant)
+
+
 def tasks(tier, seed):
     inst = _instances(tier)
     # big frames cost more (the symbolic slice bound is enumerated): interleave so that chunks are balanced
@@ -31,12 +81,19 @@ def tasks(tier, seed):
     ts = [{"name": f"validators-{i}", "fn": "validators", "mode": MODE, "instances": c} for i, c in enumerate(chunks) if c]
     ts += crc_lemma.tasks(tier)
     ts.append({"name": "crosshair", "fn": "crosshair"})
+    for framing in ("rtu", "tcp", "aa55"):
+        for ka in (False, True):
+            for c in ((2,) if tier == "quick" else (1, 2, 61)):
+                for v in ("exact", "minus1", "plus1", "other_request") + (("symbolic",) if framing != "rtu" else ()):
+                    ts.append({"name": f"delivered-{framing}-{ka}-{c}-{v}", "fn": "delivered", "args": [framing, ka, c, v]})
     return ts
 
 
 def run_task(task):
     if task["fn"] == "crc":
         return crc_lemma.run_task(task)
+    if task["fn"] == "delivered":
+        return {"harnesses": [explore(_delivered(*task["args"]), max_paths=60000, max_seconds=900, witnesses_per_outcome=1)]}
     if task["fn"] == "crosshair":
         from . import crosshair_xc
         return {"lemmas": [crosshair_xc.run()]}
@@ -51,6 +108,8 @@ def replay(case):
     if case["harness"].startswith("lemma"):
         return crc_lemma.replay(case)
     p = case["params"]
+    if case["harness"] == "delivered-is-wellformed":
+        return _delivered(p["framing"], p["keep_alive"], p["count"], p["variant"]).concrete(case["inputs"])
     h = V.ValidatorHarness(MODE, p["framing"], p["kind"], p["n"], p["m"])
     return h.concrete(case["inputs"])
 
@@ -65,7 +124,8 @@ def evidence_meta(tier):
                    "write_multi_payload_bytes": "4 (quick); 2,4,12,246 (thorough)",
                    "crc_lemma_message_lengths": crc_lemma.lengths(tier)},
         "outside": ["frames longer than 264 bytes", "CRC table equivalence for message lengths not listed",
-                    "the transport half (datagram_received -> set_result) is covered by C04/C07"],
+                    "transport half: only answers arriving in two pieces (C07's peer, count 2; 1/2/61 thorough) — whole "
+                    "datagrams are delivered as the very bytes the validator accepted (C04 checks result typing)"],
         "assumptions": [
             "_modbus_checksum is replaced by an uninterpreted function inside the validator harness; lemma K-CRC shows "
             "the real table-driven function equals bitwise CRC-16/MODBUS for the listed message lengths",
